@@ -205,6 +205,42 @@ func (b *builder) base(o baseOpt) {
 	}
 }
 
+// args draws the arguments of a call and, now and then, makes them coincide with something the client already
+// knows from its configuration (the address a controller is listed at, the client's own listen address): a value
+// that means nothing special to the protocol.
+func (b *builder) args(op model.Op, serial uint32, known *ctl) model.Args {
+	r := b.r
+	a := model.GenArgs(r, op, serial)
+	ip4 := func(s string) []byte {
+		if ad, err := netip.ParseAddr(s); err == nil && ad.Is4() {
+			v := ad.As4()
+			return v[:]
+		}
+		return nil
+	}
+	switch op {
+	case model.SetAddress:
+		if known != nil && r.Intn(4) == 0 {
+			if v := ip4(known.ip); v != nil {
+				a.IPs[0] = v // the address the controller is configured at
+			}
+		} else if r.Intn(10) == 0 {
+			if v := ip4(b.sc.HostIP); v != nil {
+				a.IPs[0] = v
+			}
+		}
+	case model.SetListener:
+		if r.Intn(6) == 0 && len(b.sc.Clients) > 0 {
+			if ap, err := netip.ParseAddrPort(b.sc.Clients[0].Listen); err == nil && !ap.Addr().IsUnspecified() {
+				a.AddrPort = ap.String() // the client's own listen address
+			} else if err == nil {
+				a.AddrPort = fmt.Sprintf("%s:%d", b.sc.HostIP, ap.Port())
+			}
+		}
+	}
+	return a
+}
+
 // target picks the controller a call is addressed to.
 func (b *builder) target() (serial uint32, known *ctl) {
 	if len(b.ctls) > 0 && b.r.Intn(8) > 0 {
@@ -512,7 +548,7 @@ func genStorm(b *builder) {
 			client := r.Intn(len(sc.Clients))
 			T := sc.Clients[client].Timeout
 			serial, known := b.target()
-			a := model.GenArgs(r, op, serial)
+			a := b.args(op, serial, known)
 			st := b.callStep(client, op, a, known, pick(r, 0, 0, b.early(T)/4), model.ReplyOpts{})
 			tk.Steps = append(tk.Steps, st)
 		}
@@ -569,7 +605,7 @@ func genC01(b *builder) {
 				op = pick(r, model.SetTime, model.SetTime, model.PutCard, model.SetTimeProfile, model.AddTask)
 			}
 			serial, known := b.target()
-			a := model.GenArgs(r, op, serial)
+			a := b.args(op, serial, known)
 			if z != nil && r.Intn(2) == 0 {
 				z.zoneArgs(op, &a)
 			}
@@ -613,7 +649,7 @@ func genC02(b *builder) {
 			op = b.anyCallOp()
 		}
 		serial, known := b.target()
-		a := model.GenArgs(r, op, serial)
+		a := b.args(op, serial, known)
 		o := model.ReplyOpts{Junk: r.Intn(3) == 0, OOD: r.Intn(5) == 0}
 		if op == model.GetStatus && r.Intn(6) == 0 {
 			o.V19 = true
@@ -662,7 +698,7 @@ func genC03(b *builder) {
 			T := b.sc.Clients[client].Timeout
 			op := b.anyCallOp()
 			serial, known := b.target()
-			a := model.GenArgs(r, op, serial)
+			a := b.args(op, serial, known)
 			st := engine.Step{Kind: "call", Client: client, Op: op, Args: a}
 			rt := b.route(client, op, serial)
 			if rt.Path == "tcp" {
@@ -728,7 +764,7 @@ func genC06(b *builder) {
 		T := b.sc.Clients[client].Timeout
 		op := b.anyOp()
 		serial, known := b.target()
-		a := model.GenArgs(r, op, serial)
+		a := b.args(op, serial, known)
 		st := b.callStep(client, op, a, known, b.early(T), model.ReplyOpts{})
 		if r.Intn(4) == 0 {
 			b.noise(&st, T)
@@ -857,7 +893,7 @@ func genC07(b *builder) {
 			op = pick(r, validated...)
 		}
 		serial, known := b.target()
-		a := model.GenArgs(r, op, serial)
+		a := b.args(op, serial, known)
 		invalidate(r, op, &a)
 		st := b.callStep(client, op, a, known, b.early(T), model.ReplyOpts{})
 		tk.Steps = append(tk.Steps, st)
@@ -935,7 +971,7 @@ func genC09(b *builder) {
 			}
 			op := b.anyOp()
 			serial, known := b.target()
-			a := model.GenArgs(r, op, serial)
+			a := b.args(op, serial, known)
 			st := engine.Step{Kind: "call", Client: client, Op: op, Args: a}
 			rt := b.route(client, op, serial)
 			valid := func(after time.Duration) {
@@ -1037,7 +1073,7 @@ func genC11(b *builder) {
 			client := r.Intn(len(sc.Clients))
 			op := b.anyCallOp()
 			serial, known := b.target()
-			a := model.GenArgs(r, op, serial)
+			a := b.args(op, serial, known)
 			st := b.callStep(client, op, a, known, b.early(sc.Clients[client].Timeout), model.ReplyOpts{})
 			if r.Intn(2) == 0 {
 				st.Plan.Emits = nil // silent controller: the port is held for a whole timeout
@@ -1298,7 +1334,7 @@ func genC17(b *builder) {
 			op = pick(r, model.GetDevice, model.GetDevices, model.GetStatus, model.GetCardByIndex, model.GetCardByID, model.GetTimeProfile, model.GetListener, model.PutCard, model.SetTimeProfile, model.AddTask, model.ActivateKeypads)
 		}
 		serial, known := b.target()
-		a := model.GenArgs(r, op, serial)
+		a := b.args(op, serial, known)
 		st := b.callStep(client, op, a, known, b.early(T)/2, model.ReplyOpts{})
 		if op == model.GetDevices {
 			for i, c := range b.ctls {
@@ -1355,7 +1391,7 @@ func genC04(b *builder) {
 			if r.Intn(2) == 0 {
 				a = model.GenHostile(r, op, serial)
 			} else {
-				a = model.GenArgs(r, op, serial)
+				a = b.args(op, serial, known)
 			}
 			st := engine.Step{Kind: "call", Client: client, Op: op, Args: a}
 			rt := b.route(client, op, a.Serial)
@@ -1453,7 +1489,7 @@ func genC08(b *builder) {
 				c := &b.ctls[0]
 				serial, known = c.serial, c
 			}
-			a := model.GenArgs(r, op, serial)
+			a := b.args(op, serial, known)
 			st := b.callStep(client, op, a, known, b.early(T), model.ReplyOpts{Junk: true})
 			rt := b.route(client, op, serial)
 			if rt.Path == "broadcast" && r.Intn(3) == 0 {
@@ -1673,7 +1709,7 @@ func genC13(b *builder) {
 		}
 		op := pick(r, dated...)
 		serial, known := b.target()
-		a := model.GenArgs(r, op, serial)
+		a := b.args(op, serial, known)
 		switch op {
 		case model.PutCard:
 			a.Card.From, a.Card.To = z.date(1, 9999), z.date(1, 9999)
